@@ -38,6 +38,9 @@ type Op struct {
 	// Ann != "": the descriptor handed to Tag carries the annotation verif.v=Ann
 	// (same content, another descriptor: Resolve must hand back the latest one)
 	Ann string `json:"ann,omitempty"`
+	// Alt (file store, pushbad of a named node): the descriptor carries another, unused
+	// name - the same digest under a second name, with content that does not verify
+	Alt bool `json:"alt,omitempty"`
 }
 
 // Case is a sequential history followed by an optional concurrent phase.
@@ -95,7 +98,11 @@ func genCase(kind string) func(t *rapid.T) Case {
 			case r < 30:
 				return Op{Op: "push", N: n}
 			case r < 38:
-				return Op{Op: "pushbad", N: n, Bad: rapid.SampledFrom([]string{"flip", "short", "empty"}).Draw(t, "bad")}
+				op := Op{Op: "pushbad", N: n, Bad: rapid.SampledFrom([]string{"flip", "short", "empty"}).Draw(t, "bad")}
+				if kind == "file" {
+					op.Alt = rapid.IntRange(0, 2).Draw(t, "altName") == 1
+				}
+				return op
 			case r < 46:
 				return Op{Op: "fetch", N: n}
 			case r < 52:
@@ -519,13 +526,24 @@ func runCase(c Case) (res vt.Result, fail *vt.Fail) {
 			if !m.has(n) {
 				absentOp++
 			}
-			want := m.expectPush(n, bad, preExisting)
+			pdesc := n.PushDesc()
+			var want error
+			if bad && op.Alt && c.Kind == "file" && n.Spec.Title != "" {
+				// refused whatever the store holds, and nothing changes (the sweep below)
+				pdesc.Annotations = map[string]string{ocispec.AnnotationTitle: n.Spec.Title + ".alt"}
+				want = errAny
+				if m.has(n) {
+					classes["bad-push-of-held-digest-under-second-name"] = true
+				}
+			} else {
+				want = m.expectPush(n, bad, preExisting)
+			}
 			var body0 io.Reader = bytes.NewReader(body)
 			if i%2 == 1 {
 				// as net/http bodies do: the last bytes arrive together with io.EOF
 				body0 = iotest.DataErrReader(body0)
 			}
-			got := s.Push(ctx, n.PushDesc(), body0)
+			got := s.Push(ctx, pdesc, body0)
 			if !matches(got, want) {
 				return res, vt.Failf("C06/push-result", "%s: Push returned %v (%s), model expects %v", when, got, classOf(got), want)
 			}
